@@ -60,11 +60,15 @@ type faultWriter struct {
 	buf   bytes.Buffer
 	calls int
 	k     int
+	err   error // nil: errW
 }
 
 func (w *faultWriter) Write(p []byte) (int, error) {
 	w.calls++
 	if w.k > 0 && w.calls >= w.k {
+		if w.err != nil {
+			return 0, w.err
+		}
 		return 0, errW
 	}
 	return w.buf.Write(p)
@@ -79,7 +83,26 @@ type Case struct {
 	KW         int    `json:"k_writer"`
 	Chunk      int    `json:"chunk"`
 	ErrKind    string `json:"err_kind,omitempty"` // identity of the reader's error: "" (own sentinel), unexpected-eof, closed-pipe, deadline
+	WErrKind   string `json:"w_err_kind,omitempty"` // identity of the writer's error: "" (own sentinel), closed-pipe, short-write, deadline, unexpected-eof
 }
+
+// writerErr: errors real destinations produce (a pipe closed by its reader, a short write, a deadline) must surface
+// like any other
+func (c Case) writerErr() error {
+	switch c.WErrKind {
+	case "closed-pipe":
+		return io.ErrClosedPipe
+	case "short-write":
+		return io.ErrShortWrite
+	case "deadline":
+		return os.ErrDeadlineExceeded
+	case "unexpected-eof":
+		return io.ErrUnexpectedEOF
+	}
+	return errW
+}
+
+var wErrKinds = []string{"", "", "closed-pipe", "short-write", "deadline", "unexpected-eof"}
 
 // readerErr: the error the failing reader returns. Errors that real readers produce (a truncated gzip stream, a closed
 // pipe, a deadline) must surface like any other; only io.EOF itself means the end of the input.
@@ -118,7 +141,7 @@ func run(c Case) (err error) {
 		if c.Mode != "writer" {
 			r = &faultReader{data: in, k: c.KR, chunk: c.Chunk, shortFinal: c.ShortFinal, err: c.readerErr()}
 		}
-		w := &faultWriter{}
+		w := &faultWriter{err: c.writerErr()}
 		if c.Mode != "reader" {
 			w.k = c.KW
 		}
@@ -129,16 +152,17 @@ func run(c Case) (err error) {
 				return fmt.Errorf("reader failed with %q after %d of %d bytes but Minify returned %v (wrote %d bytes)", c.readerErr(), c.KR, len(in), e, w.buf.Len())
 			}
 		case "writer":
-			if !isErr(e, errW) {
-				return fmt.Errorf("writer failed from write #%d but Minify returned %v", c.KW, e)
+			if !isErr(e, c.writerErr()) {
+				return fmt.Errorf("writer failed with %q from write #%d but Minify returned %v", c.writerErr(), c.KW, e)
 			}
 		case "both":
-			if !isErr(e, c.readerErr()) && !isErr(e, errW) {
+			if !isErr(e, c.readerErr()) && !isErr(e, c.writerErr()) {
 				return fmt.Errorf("reader failed after %d bytes and writer from write #%d but Minify returned %v", c.KR, c.KW, e)
 			}
 		}
 	case "via-writer":
-		sink := &faultWriter{k: c.KW}
+		sink := &faultWriter{k: c.KW, err: c.writerErr()}
+		errW := c.writerErr()
 		mw := registry.Writer(mt, sink)
 		var seen error
 		chunk := c.Chunk
@@ -264,14 +288,14 @@ func enumerate(t hx.TB, kind, input string) (int, error) {
 		if !exh && k > 48 && k < W-48 && k%5 != 0 {
 			continue
 		}
-		if err := try(Case{Kind: kind, Input: input, Mode: "writer", KW: k}, k > 1); err != nil {
+		if err := try(Case{Kind: kind, Input: input, Mode: "writer", KW: k, WErrKind: wErrKinds[(k+len(in))%len(wErrKinds)]}, k > 1); err != nil {
 			return n, err
 		}
-		if err := try(Case{Kind: kind, Input: input, Mode: "via-writer", KW: k, Chunk: 1 + k%13}, k > 1); err != nil {
+		if err := try(Case{Kind: kind, Input: input, Mode: "via-writer", KW: k, Chunk: 1 + k%13, WErrKind: wErrKinds[(k/2+len(in))%len(wErrKinds)]}, k > 1); err != nil {
 			return n, err
 		}
 		kr := (k * 7) % (len(in) + 1)
-		if err := try(Case{Kind: kind, Input: input, Mode: "both", KR: kr, KW: k, ShortFinal: k%2 == 0 && kr > 0}, k > 1 && kr > 0); err != nil {
+		if err := try(Case{Kind: kind, Input: input, Mode: "both", KR: kr, KW: k, ShortFinal: k%2 == 0 && kr > 0, WErrKind: wErrKinds[(k/3+len(in))%len(wErrKinds)]}, k > 1 && kr > 0); err != nil {
 			return n, err
 		}
 	}
